@@ -456,8 +456,9 @@ func checkC10(c *Ctx) {
 				}
 			}
 			runArgs, stdin := args, []byte(nil)
-			if r%2 == 1 && !toFile {
-				// the same bytes reached through /dev/stdin given as a path (a file whose size is not its length)
+			if r%2 == 1 && !toFile && !strings.Contains(k.prog, "$file") {
+				// the same bytes reached through /dev/stdin given as a path (a file whose size is not its length);
+				// not for programs that read $file: the name given on the command line is an input of theirs
 				runArgs = append(append([]string{}, args[:len(args)-1]...), "/dev/stdin")
 				stdin = []byte(k.input)
 			}
